@@ -11,12 +11,18 @@ PROP = {
 }
 
 TEXT = {
-    "text": "Theorems for every delimiter set, source and start line: token sources concatenate to the input "
-            "(scan_partition), located tokens carry start line + preceding newlines (scan_lines, scan_line_at), a source "
-            "in which no delimiter opens is one text token (scan_no_open_delim). The tokenizer model is compared with "
-            "parser.Scan on exhaustive small strings and random/64KiB inputs each run; the partition/line oracle is "
-            "evaluated on the real tokens.",
-    "design_ref": "DESIGN.md 6 C05",
-    "note": NOTE + "Render-level clauses (raw/comment bodies, printed strings) are added as the render model lands.",
-    "technique": "Lean 4 proof (induction on the FindAll loop, generic in the regexp) + model/implementation correspondence",
+    "text": ('Theorems for every delimiter set, source and start line: token sources concatenate to the input (scan_partition), '
+              'located tokens carry start line + preceding newlines (scan_lines, scan_line_at), a source in which no delimiter '
+              'opens is one text token (scan_no_open_delim). Render level: a text node renders to exactly its bytes '
+              '(text_renders_itself), a raw body is emitted as the concatenation of its token sources whatever it contains '
+              '(raw_verbatim, raw_body_kept), a comment body contributes nothing and is never parsed as an expression '
+              '(comment_body_skipped), a string value is written as one write of its bytes without escaping (string_value_exact, '
+              'bytes/drop variants), nil prints nothing. Ties: the tokenizer model is compared with parser.Scan on exhaustive '
+              'small strings and random/64KiB inputs; printed values with the real writeObject; the `verbatim` stream renders '
+              'text / raw / comment / string-value templates on the real engine and checks byte equality with the source pieces; '
+              'the partition/line oracle is evaluated on the real tokens.'),
+    "design_ref": 'DESIGN.md 6 C05',
+    "note": NOTE + (""),
+    "technique": ('Lean 4 proof (induction on the FindAll loop, generic in the regexp; render-tree lemmas) + model/implementation '
+              'correspondence + verbatim oracle on the implementation'),
 }
